@@ -222,20 +222,29 @@ Section Reuse.
   Variable offs : nat -> nat -> Q * Q.      (* deterministic path (fine, coarse) of the manager with tag (e, l) *)
   Variable reset : bool.
 
-  Definition managers (e : nat) (prev : list pm_tag) (K : nat) : list pm_tag :=
-    (if reset then [] else prev) ++ map (fun l => (e, l)) (seq 0 (S K)).
-  Definition manager_used (pms : list pm_tag) (e l : nat) : pm_tag := nth l pms (e, l).     (* self.path_managers[level] *)
-  Definition mp_sample (pms : list pm_tag) (e : nat) (p : mpricing) (l n : nat) : Q * Q :=
-    let t := manager_used pms e l in shift (mp_raw p l n) (offs (fst t) (snd t)).
+  (* Engine.initialisation: the list the pricing starts from *)
+  Definition base_of (prev : list pm_tag) : list pm_tag := if reset then [] else prev.
+  (* self.path_managers at the moment level l is simulated in pricing e: initialisation has appended (e, 0) and the
+     next_level calls of levels 1 .. l have appended (e, 1) .. (e, l), in this order.  Later next_level calls append behind
+     and do not change entry l (Proofs: lookup_stable). *)
+  Definition managers_at (e : nat) (base : list pm_tag) (l : nat) : list pm_tag :=
+    base ++ map (fun k => (e, k)) (seq 0 (S l)).
+  (* self.path_managers[level]: IndexError = None (never happens: Proofs, manager_used_some) *)
+  Definition manager_used (base : list pm_tag) (e l : nat) : option pm_tag := nth_error (managers_at e base l) l.
+  Definition mp_sample (base : list pm_tag) (e : nat) (p : mpricing) (l n : nat) : Q * Q :=
+    match manager_used base e l with
+    | Some t => shift (mp_raw p l n) (offs (fst t) (snd t))
+    | None => mp_raw p l n
+    end.
 
   Fixpoint run_seq (e : nat) (prev : list pm_tag) (ps : list mpricing) : list (outcome state) :=
     match ps with
     | [] => []
     | p :: r =>
-        let pms := managers e prev (mp_fuel p + mp_L0 p) in       (* enough entries for every level the run can reach *)
-        let o := price_run (mp_sample pms e p) (mp_cost p) (mp_alloc p) (mp_conv p) (mp_garbage p)
+        let base := base_of prev in
+        let o := price_run (mp_sample base e p) (mp_cost p) (mp_alloc p) (mp_conv p) (mp_garbage p)
                            (mp_df p) (mp_notional p) (mp_level_max p) 0 (mp_fuel p) (mp_L0 p) (mp_N0 p) in
-        o :: run_seq (S e) (managers e prev (length (out_levels o) - 1)) r
+        o :: run_seq (S e) (managers_at e base (length (out_levels o) - 1)) r     (* what this pricing leaves behind *)
     end.
 End Reuse.
 
